@@ -20,6 +20,32 @@ type SEnv struct {
 	facts   []string
 	bound   map[string]bool
 	callee  *ssa.Function
+	pol     int       // +1: the formula is assumed; -1: it is to be proved; 0: unknown / both
+	qfacts  *[]string // typing facts about terms that mention variables of the innermost quantifier
+}
+
+// trGoal / trAssume translate a clause that will be asserted / assumed. The polarity decides how
+// the (always true) typing facts of heap reads under binders are injected.
+func (e *SEnv) trGoal(x Expr) string   { e.pol = -1; return e.trBool(x) }
+func (e *SEnv) trAssume(x Expr) string { e.pol = 1; return e.trBool(x) }
+
+// heapFact records a typing fact (closedness of the heap: every reference read from the heap is
+// allocated, lengths are non-negative ...) for a value read by a contract expression.
+func (e *SEnv) heapFact(v Val) {
+	if v.GT == nil || v.IsTuple() {
+		return
+	}
+	f := e.c.typeFacts(v, e.st)
+	if f == "true" {
+		return
+	}
+	if mentionsBound(v.T) {
+		if e.qfacts != nil {
+			*e.qfacts = append(*e.qfacts, f)
+		}
+		return
+	}
+	e.facts = append(e.facts, f)
 }
 
 func (e *SEnv) child() *SEnv {
@@ -70,6 +96,33 @@ func (c *FnCtx) specEnvFor(st, old *State, results []Val) *SEnv {
 func (c *FnCtx) resolveName(name string, loop *Loop, sub map[ssa.Value]Val, st *State) (Val, bool) {
 	cands := c.nameAll[name]
 	var pick ssa.Value
+	if strings.HasPrefix(name, "done") && len(name) > 4 {
+		// done<k>: completed iterations of enclosing range loop number k
+		for _, ol := range c.loopList {
+			if fmt.Sprintf("done%d", ol.Ord) == name {
+				for _, in := range ol.Header.Instrs {
+					if phi, ok := in.(*ssa.Phi); ok && phi.Comment == "rangeindex" {
+						var v Val
+						if ol == loop {
+							v = c.evalAt(phi, loop, sub)
+						} else {
+							v = c.val(phi)
+						}
+						return Val{T: sx("+", v.T, "1"), S: SInt, GT: types.Typ[types.Int]}, true
+					}
+				}
+			}
+		}
+	}
+	if loop != nil && name == "done" {
+		// number of completed iterations of a range-over-slice loop (hidden index + 1)
+		for _, in := range loop.Header.Instrs {
+			if phi, ok := in.(*ssa.Phi); ok && phi.Comment == "rangeindex" {
+				v := c.evalAt(phi, loop, sub)
+				return Val{T: sx("+", v.T, "1"), S: SInt, GT: types.Typ[types.Int]}, true
+			}
+		}
+	}
 	if loop != nil {
 		// 1. phi of this header
 		for _, v := range cands {
@@ -178,9 +231,17 @@ func (c *FnCtx) evalAt(v ssa.Value, loop *Loop, sub map[ssa.Value]Val) Val {
 
 // trInvariant translates a loop invariant. sub == nil: at the header (phi constants).
 func (c *FnCtx) trInvariant(l *Loop, inv *Clause, st *State, sub map[ssa.Value]Val, items *[]Item) string {
+	if inv.Auto != nil {
+		return inv.Auto(func(v interface{}) string { return c.evalAt(v.(ssa.Value), l, sub).T })
+	}
 	e := &SEnv{c: c, st: st, old: c.entry, vars: map[string]Val{}, bound: map[string]bool{}}
 	e.resolve = func(name string) (Val, bool) { return c.resolveName(name, l, sub, st) }
-	f := e.trBool(inv.E)
+	var f string
+	if sub != nil {
+		f = e.trGoal(inv.E)
+	} else {
+		f = e.trAssume(inv.E)
+	}
 	if items != nil {
 		for _, ft := range e.facts {
 			*items = append(*items, Item{Kind: "assume", F: ft})
@@ -245,13 +306,18 @@ func (e *SEnv) tr(x Expr) Val {
 	case *EOld:
 		o := *e
 		o.st = e.old
+		o.facts = nil
 		v := o.tr(n.X)
-		e.facts = append(e.facts, o.facts[len(e.facts):]...)
+		e.facts = append(e.facts, o.facts...)
 		return v
 	case *EUnary:
 		switch n.Op {
 		case "!":
-			return Val{T: sNot(e.trBool(n.X)), S: SBool}
+			save := e.pol
+			e.pol = -save
+			r := sNot(e.trBool(n.X))
+			e.pol = save
+			return Val{T: r, S: SBool}
 		case "-":
 			v := e.tr(n.X)
 			return Val{T: sx("-", v.T), S: SInt, GT: v.GT}
@@ -276,6 +342,7 @@ func (e *SEnv) tr(x Expr) Val {
 		return e.call(n)
 	case *EQuant:
 		ch := e.child()
+		ch.facts = nil
 		var decls []string
 		var guards []string
 		for _, qv := range n.Vars {
@@ -295,7 +362,32 @@ func (e *SEnv) tr(x Expr) Val {
 			ch.bound[qv.Name] = true
 		}
 		_ = guards
+		var qf []string
+		ch.qfacts = &qf
 		body := ch.trBool(n.Body)
+		for _, ft := range ch.facts {
+			if !mentionsBound(ft) {
+				e.facts = append(e.facts, ft)
+			}
+		}
+		if len(qf) > 0 {
+			seen := map[string]bool{}
+			var uq []string
+			for _, f := range qf {
+				if !seen[f] {
+					seen[f] = true
+					uq = append(uq, f)
+				}
+			}
+			switch {
+			case n.Forall && e.pol > 0:
+				body = sAnd(append(uq, body)...)
+			case n.Forall && e.pol < 0:
+				body = sImp(sAnd(uq...), body)
+			case !n.Forall && e.pol > 0:
+				body = sAnd(append(uq, body)...)
+			}
+		}
 		q := "exists"
 		if n.Forall {
 			q = "forall"
@@ -323,7 +415,8 @@ func (e *SEnv) tr(x Expr) Val {
 		if _, isIface := t.Underlying().(*types.Interface); isIface {
 			return Val{T: v.T, S: SIface, GT: t}
 		}
-		return Val{T: c.unpayload(sx("ipay", v.T), t), S: c.sortOf(t), GT: t}
+		r := Val{T: c.unpayload(sx("ipay", v.T), t), S: c.sortOf(t), GT: t}
+		return r
 	}
 	e.fail("cannot translate %s", describe(x))
 	return Val{}
@@ -418,9 +511,17 @@ func (e *SEnv) binary(n *EBinary) Val {
 	case "||":
 		return Val{T: sOr(e.trBool(n.X), e.trBool(n.Y)), S: SBool}
 	case "==>":
-		return Val{T: sImp(e.trBool(n.X), e.trBool(n.Y)), S: SBool}
+		save := e.pol
+		e.pol = -save
+		a := e.trBool(n.X)
+		e.pol = save
+		return Val{T: sImp(a, e.trBool(n.Y)), S: SBool}
 	case "<==>":
-		return Val{T: sEq(e.trBool(n.X), e.trBool(n.Y)), S: SBool}
+		save := e.pol
+		e.pol = 0
+		a, b := e.trBool(n.X), e.trBool(n.Y)
+		e.pol = save
+		return Val{T: sEq(a, b), S: SBool}
 	}
 	a, b := e.tr(n.X), e.tr(n.Y)
 	a, b = e.coerceNil(a, b)
@@ -498,7 +599,9 @@ func (e *SEnv) sel(n *ESel) Val {
 			if st.Field(i).Name() == n.Name {
 				arr := c.fieldArr(pt, i)
 				ft := st.Field(i).Type()
-				return Val{T: sSel(c.arrIn(e.st, arr), base.T), S: c.sortOf(ft), GT: ft}
+				r := Val{T: sSel(c.arrIn(e.st, arr), base.T), S: c.sortOf(ft), GT: ft}
+				e.heapFact(r)
+				return r
 			}
 		}
 		e.fail("type %s has no field %s", tstr(pt), n.Name)
@@ -542,7 +645,9 @@ func (e *SEnv) index(n *EIndex) Val {
 			e.fail("index on slice of unknown element type")
 		}
 		arr := c.backArr(et)
-		return Val{T: sSel(sSel(c.arrIn(e.st, arr), sx("sref", a.T)), sx("+", sx("soff", a.T), i.T)), S: c.sortOf(et), GT: et}
+		r := Val{T: sSel(sSel(c.arrIn(e.st, arr), sx("sref", a.T)), c.ix(sx("soff", a.T), i.T)), S: c.sortOf(et), GT: et}
+		e.heapFact(r)
+		return r
 	case a.GT != nil && isMap(a.GT):
 		mt := a.GT.Underlying().(*types.Map)
 		_, mv := c.mapArrs(a.GT)
@@ -604,6 +709,11 @@ func (e *SEnv) call(n *ECall) Val {
 			a := e.tr(n.Args[0])
 			switch {
 			case a.S == SSlice:
+				if !mentionsBound(a.T) {
+					e.facts = append(e.facts, sx("<=", "0", sx("slen", a.T)))
+				} else if e.qfacts != nil {
+					*e.qfacts = append(*e.qfacts, sx("<=", "0", sx("slen", a.T)))
+				}
 				return Val{T: sx("slen", a.T), S: SInt, GT: types.Typ[types.Int]}
 			case a.GT != nil && isString(a.GT):
 				return Val{T: sx(c.ufun("strlen", []Sort{SInt}, SInt), a.T), S: SInt, GT: types.Typ[types.Int]}
@@ -611,6 +721,9 @@ func (e *SEnv) call(n *ECall) Val {
 				return Val{T: c.mapLen(e.st, a), S: SInt, GT: types.Typ[types.Int]}
 			}
 			e.fail("len of sort %s", a.S)
+		case "isempty":
+			a := e.tr(n.Args[0])
+			return Val{T: sEq(a.T, fmt.Sprintf("((as const %s) false)", a.S)), S: SBool}
 		case "ptr":
 			a := e.tr(n.Args[0])
 			return Val{T: sx("ipay", a.T), S: SInt}
@@ -678,8 +791,9 @@ func (e *SEnv) call(n *ECall) Val {
 				ch.vars[p.Name] = vals[i]
 			}
 			ch.resolve = nil
+			ch.facts = nil
 			r := ch.tr(d.Body)
-			e.facts = append(e.facts, ch.facts[len(e.facts):]...)
+			e.facts = append(e.facts, ch.facts...)
 			return r
 		}
 		if u, ok := c.V.DB.UFuns[name]; ok {
@@ -917,7 +1031,7 @@ func (c *FnCtx) pureInstance(name, key string, con *Contract, sig *types.Signatu
 	}
 	var posts []string
 	for _, cl := range con.Ensures {
-		posts = append(posts, e.trBool(cl.E))
+		posts = append(posts, e.trAssume(cl.E))
 	}
 	c.defs = append(c.defs, sImp(sAnd(guards...), sAnd(posts...)))
 }
@@ -981,7 +1095,7 @@ func (c *FnCtx) eventOf(st *State, f string, s Val) string {
 	arr := c.backArr(et)
 	data := sSel(c.arrIn(st, arr), sx("sref", s.T))
 	arg := func(i int) string {
-		return sIte(sx("<", sInt(int64(i)), sx("slen", s.T)), sSel(data, sx("+", sx("soff", s.T), sInt(int64(i)))), "(mk_iface 0 0)")
+		return sIte(sx("<", sInt(int64(i)), sx("slen", s.T)), sSel(data, c.ix(sx("soff", s.T), sInt(int64(i)))), "(mk_iface 0 0)")
 	}
 	return sx("mk_ev", f, sx("slen", s.T), arg(0), arg(1), arg(2), arg(3))
 }
